@@ -12,7 +12,9 @@ META = dict(
                 "terminal invariants (visited = reachable by shortest distance, local blocks, handler CIDs, provider calls, walk "
                 "error) are evaluated on every recorded terminal state."),
     level_note=("Trusted: harness projection (node <-> CID of a dag-pb node, error -> (kind,node)), goroutine id as worker id, "
-                "scripted getLinks/exchange; context cancellation is not exercised; the trace spec accepts any dispatch order."),
+                "scripted getLinks/exchange (the concurrent walks' getLinks blocks at a gate and honours its context: a failing "
+                "fetch returns while siblings are in flight); the caller's context is never cancelled; the trace spec accepts "
+                "any dispatch order."),
     technique="TLA+ walk model; TLC-generated sequential behaviours replayed; recorded concurrent traces validated by TLC (TraceDagWalk)",
 )
 
@@ -55,7 +57,7 @@ def split_runs(recs):
 
 def run(ctx):
     q = ctx.quick
-    ctx.assumptions += ["context cancellation during a walk is not exercised",
+    ctx.assumptions += ["the caller's context is never cancelled during a walk (a walk-owned context may be: WFetchCancelled)",
                         "getLinks / exchange are scripted: a node's fetch result is a function of the node",
                         "goroutine id identifies the worker; the visit callback is serialised by the walk (visitlk)"]
     ctx.cov["rule"] = ("M: all DAGs <= 3/4 nodes x status assignment x depth limit x concurrency 1..3 x SkipRoot x handler lists. "
@@ -64,7 +66,7 @@ def run(ctx):
                        "local blockstore afterwards). T: random walks with 2..32 workers, every callback an event. "
                        "non-trivial = a configuration with sharing or a failing node or a depth limit that cuts the DAG")
     # ---------------------------------------------------------------- M
-    devacts = ("WHandleDevRoot", "WHandleDevCrash", "WProvideDevRoot")
+    devacts = ("WHandleDevRoot", "WHandleDevCrash", "WProvideDevRoot", "WFetchCancelledHazHandled")
     skip_m = bool(os.environ.get("VERIF_SKIP_M"))      # mutation self-tests only: the model does not depend on /repo
     if not skip_m:
         ctx.tlc_mc("DagWalk", "MCDagWalk.tla", "MCDagWalk.cfg", timeout=2400, coverage=not q, allow_zero=devacts)
@@ -73,8 +75,13 @@ def run(ctx):
             ctx.tlc_mc("DagWalk", "MCDagWalk.tla", cfg, timeout=3600)
         # the model of the as-built defects must violate the property invariants (sanity of the invariants)
         r = ctx.tlc_mc("DagWalk", "MCDagWalk.tla", "MCDagWalkDev.cfg", timeout=900, expect_violation=True)
-        if r["violated"] not in ("HandlerCidRight", "NoHandlerCrash", "ProvidedExact", "HandlerCallsRight", "ResultRight"):
+        if r["violated"] not in ("HandlerCidRight", "HandlerOwnFailure", "NoHandlerCrash", "ProvidedExact", "HandlerCallsRight", "ResultRight"):
             ctx.broken("the deviation model (Devs = D6, D7) does not violate the property invariants: %s" % r["violated"])
+        # hazard model: a cancelled in-flight sibling's ctx.Err() pushed through the handler chain must violate HandlerOwnFailure
+        r = ctx.tlc_mc("DagWalk", "MCDagWalk.tla", "MCDagWalkHaz.cfg", timeout=900, expect_violation=True)
+        if r["violated"] != "HandlerOwnFailure":
+            ctx.broken("the hazard model (cancelled sibling fetch reported to the handlers) does not violate HandlerOwnFailure: %s"
+                       % r["violated"])
     # ---------------------------------------------------------------- G
     sdir = ctx.specdir("DagWalk")
     rng = random.Random(ctx.seed)
@@ -106,6 +113,15 @@ def run(ctx):
         return
     groups = split_runs(recs)
     ctx.log("T groups: " + ", ".join("%s=%d events" % (k, len(v)) for k, v in sorted(groups.items())))
+
+    # the runs aimed at "a fetch fails while sibling fetches are in flight" must really have produced that situation
+    rets = [r for r in recs if r.get("ev") == "Return"]
+    raced = [r for r in rets if r.get("sib", 0) > 0]
+    raced_fail = [r for r in raced if r["res"]["k"] != "ok"]
+    ctx.log("T walks=%d, with a failing fetch delivered while siblings were in flight=%d (walk failed in %d of them)"
+            % (len(rets), len(raced), len(raced_fail)))
+    if len(raced_fail) < 3:
+        ctx.broken("only %d recorded concurrent walks failed while sibling fetches were in flight (gate ineffective)" % len(raced_fail))
 
     def flip_visit(rs):       # binding control: one visit callback's logged result is inverted
         idx = [i for i, r in enumerate(rs) if r["ev"] == "Visit" and r["w"] > 0]
